@@ -21,7 +21,6 @@ theorem components_count_correct (nodes : List Nat) (arc : Nat → Nat → Bool)
   refine ⟨hok.classes, hok.disjoint, hcov, ?_⟩
   intro R hR
   unfold compCount
-  change R.length = (comps nodes arc).length
   have hC : ∀ c ∈ comps nodes arc, ∃ r ∈ nodes, ∀ w, w ∈ c ↔ Reach nodes arc r w := hok.classes
   apply Nat.le_antisymm
   · -- R → comps
@@ -62,6 +61,37 @@ example : IsTransversal [0, 1, 2, 3] (fun u w => (u, w) == (1, 0) || (u, w) == (
     · exact ⟨2, by simp, h2 1 (by decide)⟩
     · exact ⟨2, by simp, Reach.refl _⟩
     · exact ⟨3, by simp, Reach.refl _⟩
+
+/-! ## T-spec: core numbers by repeated deletion -/
+
+/-- `kcoreDef G k` (literal repeated deletion of nodes of degree below `k`) is the *greatest* set of
+nodes in which every node has at least `k` neighbours inside the set – the k-core of the module's
+docstring ("the maximal subgraph where every node has degree at least k"). -/
+theorem kcoreDef_greatest (G : Graph) (k : Nat) :
+    (kcoreDef G k).Sublist G.nodes ∧
+    (∀ v ∈ kcoreDef G k, k ≤ degIn G (kcoreDef G k) v) ∧
+    (∀ T : List Nat, T.Nodup → (∀ v ∈ T, v ∈ G.nodes) → (∀ v ∈ T, k ≤ degIn G T v) →
+      ∀ v ∈ T, v ∈ kcoreDef G k) :=
+  peel_spec G k G.nodes.length G.nodes (Nat.le_refl _)
+
+/-- `coreNumDef G v` is the largest `k` for which `v` survives the deletion. -/
+theorem coreNumDef_spec (G : Graph) (v : Nat) (hv : v ∈ G.nodes) :
+    v ∈ kcoreDef G (coreNumDef G v) ∧ ∀ k, v ∈ kcoreDef G k → k ≤ coreNumDef G v := by
+  have hl := foldl_last (fun k => (kcoreDef G k).contains v) (G.nodes.length + 1)
+  unfold coreNumDef
+  constructor
+  · rcases hl.2 with h | h
+    · rw [h, kcoreDef_zero]; exact hv
+    · simpa using h
+  · intro k hk
+    have hdeg := (kcoreDef_greatest G k).2.1 v hk
+    have hlen : (kcoreDef G k).length ≤ G.nodes.length := (kcoreDef_greatest G k).1.length_le
+    have := degIn_le_length G (kcoreDef G k) v
+    exact hl.1 k (by omega) (by simpa using hk)
+
+/-- non-vacuity: triangle 0-1-2 with the pendant node 3 (edges listed from one side only) -/
+def exKC : Graph := ⟨[3, 0, 1, 2], fun v => if v = 0 then [1, 2] else if v = 1 then [2, 1] else if v = 3 then [2] else []⟩
+example : kcoreDef exKC 2 = [0, 1, 2] ∧ exKC.nodes.map (coreNumDef exKC) = [1, 2, 2, 2] := by decide
 
 /-! ## T-model: one PageRank iteration at `Rat` -/
 
@@ -121,9 +151,10 @@ theorem pagerank_step_sum_one (G : Graph) (d : Rat) (s : Nat → Rat) (hn : G.no
 
 /-- non-vacuity: duplicate neighbour, self loop, a label outside the node set and a dangling node -/
 def exPR : Graph := ⟨[2, 0, 1], fun v => if v = 0 then [1, 1, 2, 7] else if v = 1 then [1, 0] else []⟩
-example : exPR.nodes.Nodup ∧ exPR.nodes ≠ [] ∧ (exPR.nodes.map fun _ => (1 : Rat) / 3).sum = 1 := by decide
-example : (exPR.nodes.map (prStep ratOps exPR (17 / 20) fun _ => 1 / 3)) = [101 / 360, 19 / 72, 41 / 90] := by
-  decide +kernel
+example : exPR.nodes.Nodup ∧ exPR.nodes ≠ [] ∧ (exPR.nodes.map fun _ => (1 : Rat) / 3).sum = 1 :=
+  ⟨by decide, by decide, by norm_num [exPR]⟩
+example : prStep ratOps exPR (17 / 20) (fun _ => 1 / 3) 1 = 19 / 40 := by
+  rw [prStep_rat]; norm_num [exPR, prIncoming, outCount]
 
 /-- C15 [S] `pagerank_contraction`: the iteration is a contraction in the L1 norm with factor
 `damping` (so for damping < 1 the damped PageRank equation has exactly one solution and the power
@@ -154,11 +185,12 @@ theorem pagerank_contraction (G : Graph) (d : Rat) (x y : Nat → Rat) (hn : G.n
         + d * ((G.nodes.filter fun u => outCount G u == 0).map y).sum / (G.nodes.length : Rat))
         = d * ((prIncoming G v).map fun u => (x u - y u) / (outCount G u : Rat)).sum
         + d * ((G.nodes.filter fun u => outCount G u == 0).map fun u => x u - y u).sum / (G.nodes.length : Rat) := by
-      rw [← e, ← e]
-      have : ∀ u, (x u - y u) / (outCount G u : Rat) = x u / (outCount G u : Rat) - y u / (outCount G u : Rat) :=
-        fun u => by ring
-      simp only [this]
-      rw [← e]; ring
+      have e1 := e (prIncoming G v) (fun u => x u / (outCount G u : Rat)) (fun u => y u / (outCount G u : Rat))
+      have e2 := e (G.nodes.filter fun u => outCount G u == 0) x y
+      have : (fun u => x u / (outCount G u : Rat) - y u / (outCount G u : Rat))
+          = fun u => (x u - y u) / (outCount G u : Rat) := by funext u; ring
+      rw [this] at e1
+      rw [← e1, ← e2]; ring
     rw [hrw]
     have tri : ∀ (l : List Nat) (f : Nat → Rat), |(l.map f).sum| ≤ (l.map fun u => |f u|).sum := by
       intro l f
@@ -234,9 +266,131 @@ theorem pagerank_residual_bound (G : Graph) (d tol : Rat) (old : Nat → Rat) (h
     (fun u => abs_nonneg _) v hv
   have h2 := hle G.nodes (fun v => |prStep ratOps G d old v - old v|) tol hstop
   have h3 := mul_le_mul_of_nonneg_left h2 hd0
-  simp only at h1
   linarith
 
-example : exPR.nodes.Nodup ∧ exPR.nodes ≠ [] ∧ (0 : Rat) ≤ 17 / 20 := by decide
+example : exPR.nodes.Nodup ∧ exPR.nodes ≠ [] ∧ (0 : Rat) ≤ 17 / 20 := ⟨by decide, by decide, by norm_num⟩
+
+/-! ## T-spec: the PageRank checker -/
+
+theorem ratOps_abs (a : Rat) : ratOps.abs a = |a| := by
+  simp only [ratOps]
+  split
+  · rename_i h; rw [abs_of_neg h]
+  · rename_i h; rw [abs_of_nonneg (not_lt.1 h)]
+
+/-- The Boolean checker evaluated on the implementation's scores (converted exactly to rationals)
+decides: all scores non-negative, `|Σ − 1| ≤ eps`, and at every node the damped PageRank equation
+with uniform redistribution of the dangling mass
+`p v = (1−d)/n + d·Σ_{u → v} p u / out u + d·(Σ_{out u = 0} p u)/n`
+(every occurrence of `v` in `neighbors(u)` counted) holds within `bound`. -/
+theorem prCheck_iff (G : Graph) (d : Rat) (s : Nat → Rat) (eps bound : Rat) :
+    prCheck G d s eps bound = true ↔
+      (∀ v ∈ G.nodes, 0 ≤ s v) ∧ |(G.nodes.map s).sum - 1| ≤ eps ∧
+      ∀ v ∈ G.nodes, |s v - ((1 - d) / (G.nodes.length : Rat)
+        + d * ((prIncoming G v).map fun u => s u / (outCount G u : Rat)).sum
+        + d * ((G.nodes.filter fun u => outCount G u == 0).map s).sum / (G.nodes.length : Rat))| ≤ bound := by
+  unfold prCheck
+  simp only [Bool.and_eq_true, List.all_eq_true, decide_eq_true_eq, ratOps_abs, prStep_rat]
+  constructor
+  · rintro ⟨⟨h1, h2⟩, h3⟩; exact ⟨h1, h2, h3⟩
+  · rintro ⟨h1, h2, h3⟩; exact ⟨⟨h1, h2⟩, h3⟩
+
+/-- non-vacuity: the exact stationary vector of the directed 3-cycle passes with zero slack -/
+example : prCheck ⟨[0, 1, 2], fun v => [(v + 1) % 3]⟩ (17 / 20) (fun _ => 1 / 3) 0 0 = true := by decide +kernel
+
+/-! ## T-spec: the partition checker -/
+
+/-- The Boolean checker evaluated on the implementation's communities decides `IsPartition`. -/
+theorem isPartition_iff (nodes : List Nat) (P : List (List Nat)) :
+    isPartition nodes P = true ↔ IsPartition nodes P := by
+  unfold isPartition
+  simp only [Bool.and_eq_true, List.all_eq_true, List.any_eq_true, decide_eq_true_eq,
+    Bool.not_eq_eq_eq_not, Bool.not_true, List.isEmpty_eq_false_iff, List.contains_iff_mem]
+  constructor
+  · rintro ⟨⟨h1, h2⟩, h3⟩
+    exact ⟨fun c hc => (h1 c hc).1.1, fun c hc => (h1 c hc).1.2, fun c hc => (h1 c hc).2,
+      fun v hv => h2 v hv, h3⟩
+  · intro h
+    exact ⟨⟨fun c hc => ⟨⟨h.nonempty c hc, h.nodup c hc⟩, h.sub c hc⟩, fun v hv => h.cover v hv⟩, h.disjoint⟩
+
+example : IsPartition [4, 0, 2] [[0, 4], [2]] := (isPartition_iff _ _).1 (by decide)
+example : ¬ IsPartition [4, 0, 2] [[0, 4], [2, 4]] := fun h => by
+  have := (isPartition_iff _ _).2 h; revert this; decide
+
+/-! ## T-model: Louvain bookkeeping and reported modularity -/
+
+/-- C15 [C] `louvain_partition_inv`: `node_to_comm` / `comm_nodes` (`LInv`: node `v` is in
+`comm_nodes[i]` iff `node_to_comm[v] = i`, communities are duplicate-free subsets of the node set)
+hold initially and are preserved by the bookkeeping of *every* move – whatever community `best < n`
+is chosen and whatever the scalar type – hence by every node step, pass and run of the mirror; and
+the non-empty communities of any state satisfying it form a partition of the node set. -/
+theorem louvain_partition_inv {α} (O : Ops α) (G : Graph) (hn : G.nodes.Nodup) :
+    LInv G.nodes (lInit O G) ∧
+    (∀ (st : LSt α) (v best : Nat) (vdeg : α), LInv G.nodes st → v ∈ G.nodes → best < G.nodes.length →
+      LInv G.nodes (moveNode O st v best vdeg)) ∧
+    (∀ (γ tw : α) (st : LSt α) (v : Nat), LInv G.nodes st → v ∈ G.nodes →
+      LInv G.nodes (lNodeStep O G.sadj γ tw st v).1) ∧
+    (∀ (st : LSt α), LInv G.nodes st → IsPartition G.nodes (st.cnodes.filter fun c => !c.isEmpty)) :=
+  ⟨lInit_inv O G hn, fun _ _ _ vdeg h hv hb => moveNode_inv O h hv hb vdeg,
+   fun γ tw _ _ h hv => lNodeStep_inv O G γ tw h hv, fun _ h => partition_of_inv h⟩
+
+/-- C15: whatever `louvain`'s mirror returns (any scalar type, any resolution, any fuel, every early
+exit included) is a partition of the node set. -/
+theorem louvain_output_partition {α} (O : Ops α) (G : Graph) (γ : α) (fuel : Nat) (hn : G.nodes.Nodup)
+    (out : LvOut α) (h : louvain O G γ fuel = some out) : IsPartition G.nodes out.comms := by
+  unfold louvain at h
+  split at h
+  · rename_i hnil
+    simp only [Option.some.injEq] at h; subst h
+    rw [hnil]; exact ⟨by simp, by simp, by simp, by simp, by simp⟩
+  · rename_i v hv
+    simp only [Option.some.injEq] at h; subst h
+    rw [hv]; exact singletons_partition (nodes := [v]) (by simp)
+  · simp only at h
+    split at h
+    · simp only [Option.some.injEq] at h; subst h
+      exact singletons_partition hn
+    · split at h
+      · cases h
+      · rename_i st it hloop
+        simp only [Option.some.injEq] at h; subst h
+        exact partition_of_inv (lLoop_inv O G γ _ fuel _ 0 (lInit_inv O G hn) (st, it) hloop)
+
+/-- C15 [C] `modularity_reported_eq`: the modularity reported by the mirror (final computation of
+`louvain` over the adjacency it built, at `Rat`) equals the modularity formula
+`Σ_c [L_c/m − γ (D_c/2m)²]` of the returned partition, stated directly on the symmetric closure of
+the neighbour relation (`m = 0`: both sides are 0, the value the code reports for edgeless graphs). -/
+theorem modularity_reported_eq (G : Graph) (γ : Rat) (fuel : Nat) (hn : G.nodes.Nodup)
+    (out : LvOut Rat) (h : louvain ratOps G γ fuel = some out) :
+    out.modularity = modularityDef G γ out.comms := by
+  unfold louvain at h
+  split at h
+  · rename_i hnil
+    simp only [Option.some.injEq] at h; subst h
+    simp [modularityDef, ratOps]
+  · rename_i v hv
+    simp only [Option.some.injEq] at h; subst h
+    rw [modularityDef_zero]
+    · simp [ratOps]
+    · simp [degDef, degIn, hv]
+  · simp only at h
+    split at h
+    · rename_i hm
+      simp only [Option.some.injEq] at h; subst h
+      rw [modularityDef_zero]
+      · simp [ratOps]
+      · rw [← degsum_eq G hn G.nodes]; simpa using hm
+    · split at h
+      · cases h
+      · simp only [Option.some.injEq] at h; subst h
+        exact reportMod_eq G hn γ _
+
+/-- non-vacuity: two triangles joined by an edge, every edge listed from one side only -/
+def exLV : Graph := ⟨[0, 1, 2, 3, 4, 5], fun v =>
+  if v = 0 then [1, 2] else if v = 1 then [2] else if v = 2 then [3] else if v = 3 then [4, 5]
+  else if v = 4 then [5] else []⟩
+example : exLV.nodes.Nodup := by decide
+example : (louvain ratOps exLV 1 50).map (fun o => (o.comms, o.modularity)) = some ([[0, 1, 2], [3, 4, 5]], 5 / 14) := by
+  decide +kernel
 
 end Solvor.Net
